@@ -90,6 +90,23 @@ func (fr *Frame) callValue(st *State, fnv Value, ft types.Type, args []Value, in
 
 func (fr *Frame) callStatic(st *State, fn *ssa.Function, bind []Value, args []Value, in ssa.Instruction) (Value, error) {
 	v, err := fr.callStatic1(st, fn, bind, args, in)
+	if err == nil && fr.depth == 0 && fr.contract != nil {
+		// "at call NAME!after#k assert ...": ghost assertions evaluated in the state right after the k-th call
+		name := fr.run.eng.fnName(fn)
+		k := fr.callCount[name] - 1
+		for _, cl := range fr.contract.AtCall {
+			if cl.Call == name+"!after" && (cl.CallK == k || cl.CallK == -1) && fr.run.active(cl.Tags) {
+				g, gerr := fr.evalBool(cl.E, st, map[string]Value{})
+				if gerr != nil {
+					return nil, fmt.Errorf("at call %s!after#%d %s: %v", name, k, cl.Label, gerr)
+				}
+				if cl.Kind == "assert" {
+					fr.run.addOblig(&Oblig{Name: fr.oblName("assert", fmt.Sprintf("%s!after#%d.%s", name, k, cl.Label)), Kind: "assert", Func: name0(fr), Label: cl.Label, Tags: cl.Tags, Text: cl.Text, Guard: st.guard, Goal: g})
+				}
+				fr.run.assume(st, g)
+			}
+		}
+	}
 	if err == nil && fr.depth == 0 {
 		if fr.lastRet == nil {
 			fr.lastRet = map[string]Value{}
@@ -110,16 +127,29 @@ func (fr *Frame) callStatic1(st *State, fn *ssa.Function, bind []Value, args []V
 			}
 		}
 	}
+	// a write callback installed by the function under verification sees the bytes this call emits
+	cbPre := fr.cbBefore(st)
 	if v, handled, err := fr.intrinsic(st, name, fn, args, in); handled {
+		if err == nil {
+			err = fr.cbAfter(st, cbPre)
+		}
 		return v, err
 	}
 	if ct := r.eng.specs.Funcs[name]; ct != nil && !ct.Opts["inline"] {
-		return fr.callContract(st, ct, fn, fn.Signature, args, in)
+		v, err := fr.callContract(st, ct, fn, fn.Signature, args, in)
+		if err == nil {
+			err = fr.cbAfter(st, cbPre)
+		}
+		return v, err
 	}
 	if fr.canInline(fn) {
 		return fr.inline(st, fn, bind, args, in)
 	}
-	return fr.callByContractOrHavoc(st, name, fn, fn.Signature, args, false, in)
+	v, err := fr.callByContractOrHavoc(st, name, fn, fn.Signature, args, false, in)
+	if err == nil {
+		err = fr.cbAfter(st, cbPre)
+	}
+	return v, err
 }
 
 func (fr *Frame) canInline(fn *ssa.Function) bool {
@@ -898,3 +928,5 @@ func (p *postState) read(comp, srt, ref string) string {
 	}
 	return val
 }
+
+func name0(fr *Frame) string { return fr.run.eng.fnName(fr.fn) }
